@@ -279,7 +279,7 @@ func (g *Generator) generateSingularInt64FieldUnmarshal(
 	isUnsigned := isUint64Type(field)
 
 	gf.P("// Convert ", jsonName, " from number to string for protojson")
-	gf.P(`if rawVal, ok := raw["`, jsonName, `"]; ok {`)
+	gf.P(`if rawVal, ok := raw["`, jsonName, `"]; ok && string(rawVal) != "null" {`)
 	if isUnsigned {
 		gf.P("var num uint64")
 		gf.P("if err := json.Unmarshal(rawVal, &num); err == nil {")
